@@ -69,7 +69,7 @@ impl Prop for TextForms {
         let disp = match c.kind {
             Kind::Date => catch(|| mk_date(c.v.day).to_string()),
             Kind::Time => catch(|| mk_time(c.v.ns as u64).set_offset(Offset::Fixed(c.off)).to_string()),
-            Kind::DateTime => catch(|| mk_dt_off(c.v.i(), c.off).to_string()),
+            Kind::DateTime => catch(|| mk_dt_off_any(c.v.i(), c.off).to_string()),
         };
         match disp {
             Err(p) => return fail("c20.display_panic", "to_string returns", p.short()),
@@ -168,7 +168,7 @@ impl Prop for TextForms {
             }
             Kind::DateTime => {
                 let r = catch(|| {
-                    let d = mk_dt_off(c.v.i(), c.off);
+                    let d = mk_dt_off_any(c.v.i(), c.off);
                     let js = serde_json::to_string(&d).map_err(|e| e.to_string())?;
                     let back: DateTime = serde_json::from_str(&js).map_err(|e| format!("{} for {}", e, js))?;
                     Ok::<_, String>((js, rd_dt(&back), back.get_offset()))
